@@ -114,7 +114,7 @@ class P_discus(StructureParser):
                     continue
                 self._parse_atom(words)
             # self consistency check
-            exp_natoms = reduce(lambda x, y: x * y, self.stru.pdffit["ncell"])
+            exp_natoms = reduce(lambda x, y: x * y, self.stru.pdffit["ncell"], 1)
             # only check if ncell record exists
             if self.ncell_read and exp_natoms != len(self.stru):
                 emsg = "Expected %d atoms, read %d." % (exp_natoms, len(self.stru))
